@@ -78,6 +78,12 @@ def cases(tier, rng):
         f"register q[{n}]\n" + body("Rx 0.5 q[0]"),
         f"register q[{n}]\n" + body("X 1"),
         f"register q[{n}]\n" + body("X q"),
+        # the same reference text in a scope where its name is a macro parameter and in one where it is the register:
+        # the out-of-range use must be refused whichever comes first (a shared memoised statement would hide it)
+        f"register q[{n}]\nmacro m q {{ X q[{n + 1}] }}\n" + body(f"X q[{n + 1}]"),
+        f"register q[{n}]\nmap z q[0:1]\nmacro m q {{ X q[1] }}\n" + body("X q[1]\nm z"),
+        f"register q[{n}]\nmap z q[0:1]\n" + body("X q[1]") + "macro m q { X q[1] }\n" + body("m z"),
+        f"register q[{n}]\nmap z q[0:1]\nmacro m q {{ X q[1] }}\n" + body("m z") + body("X q[1]"),
         f"register q[{n}]\nmacro m a {{ X a }}\n" + body("m"),
         f"register q[{n}]\nmacro m a {{ X a }}\n" + body("m q[0] q[1]"),
         f"register q[{n}]\nmacro m a {{ X a }}\nmacro m b {{ X b }}\n" + body("m q[0]"),
@@ -97,14 +103,42 @@ def cases(tier, rng):
         bad.append("\n".join(lets + lines + rest + mac) + "\n" + body("X q[0]"))
     for b in bad:
         out.append((b, {}, False, None))
+    # 4. overriding values that are floats, in every integer position a let can stand in: an integral float denotes
+    #    that integer or is refused with JaqalError; a non-integral one is never honourable (no truncation, no crash)
+    fl = []
+    for v in (2.0, 3.0, 2.7, 3.5, -0.3, 0.0):
+        integral = float(v).is_integer()
+        iv = int(v)
+        fl.append((f"let k 1\nregister q[{n}]\n" + body("X q[k]"), {"k": v}, integral and 0 <= iv < n, iv, integral))
+        fl.append((f"let k 1\nregister q[{n}]\nmap a q[k]\n" + body("X a"), {"k": v}, integral and 0 <= iv < n, iv, integral))
+        fl.append((f"let k 1\nregister q[{n}]\nmap a q[1:4]\n" + body("X a[k]"), {"k": v}, integral and 0 <= iv < 3, 1 + iv, integral))
+        fl.append((f"let k 1\nregister q[{n}]\nmap a q[k:4]\n" + body("X a[0]"), {"k": v}, integral and 0 <= iv < n, iv, integral))
+        fl.append((f"let k 3\nregister q[k]\n" + body("X q[0]"), {"k": v}, integral and iv >= 1, 0, integral))
+        fl.append((f"let k 1\nregister q[{n}]\nmacro m r j {{ X r[j] }}\n" + body("m q k"), {"k": v}, integral and 0 <= iv < n, iv, integral))
+    for text, ov, ok, exp, integral in fl:
+        out.append((text, ov, ok, exp if ok else None, "may-reject" if integral else None))
+    directed = [o for o in out if len(o) == 5]
+    out = [o for o in out if len(o) == 4]
     if tier != "thorough":
         rng.shuffle(out)
         out = out[:900]
-    for text, ov, ok, exp in out:
-        yield text + "#ov=" + repr(sorted(ov.items())), {"text": text, "ov": ov, "ok": ok, "exp": exp}, not ok
+    for text, ov, ok, exp, *flag in out + directed:
+        yield text + "#ov=" + repr(sorted(ov.items())), {"text": text, "ov": ov, "ok": ok, "exp": exp, "may_reject": bool(flag and flag[0])}, not ok
 
 
 def check(pl):
+    from jaqalpaq.core.algorithm import fill_in_let, expand_macros
+    from jaqalpaq.emulator import run_jaqal_circuit
+    text, ov, ok, exp = pl["text"], pl["ov"], pl["ok"], pl["exp"]
+    # two routes: the circuit as parsed, and with its macros expanded first (both are how programs reach a backend)
+    for route in ("direct", "expanded"):
+        r = check_route(pl, route)
+        if r is not None:
+            return r if route == "direct" else f"[after expand_macros] {r}"
+    return None
+
+
+def check_route(pl, route):
     from jaqalpaq.core.algorithm import fill_in_let, expand_macros
     from jaqalpaq.emulator import run_jaqal_circuit
     text, ov, ok, exp = pl["text"], pl["ov"], pl["ok"], pl["exp"]
@@ -115,10 +149,13 @@ def check(pl):
         stage = "let substitution"
         if ov:
             c = fill_in_let(c, ov)
+        if route == "expanded":
+            stage = "macro expansion"
+            c = expand_macros(c)
         stage = "emulation"
         res = run_jaqal_circuit(c)
     except JaqalError as ex:
-        if ok:
+        if ok and not pl.get("may_reject"):
             return f"valid program rejected at {stage}: {ex}"
         return None
     if not ok:
